@@ -8,3 +8,23 @@ package unary
 //@   requires stepsBatch >= 0
 //@   ensures[C08] never-fails: result1 == nil && result0 != nil
 //@   ensures[C06] wraps-next: istype(result0, *unary.unaryNegation) && cast(result0, *unary.unaryNegation).next == next
+
+// unaryNegation.Next (C06, C13, C18): the child's batch is negated in place and returned as is: one
+// output vector per input vector. Batches are served whether or not Series() was called first: the
+// workers are started (and the series loaded) on the first call of either.
+//@ func (*unaryNegation).loadSeries
+//@   trusted label-set construction (labels.Builder) is not modelled; assumed to start the workers on success
+//@   requires u != nil && ctx != nil
+//@   panics may
+//@   assigns unary.unaryNegation.series, ghost started
+//@   ensures result == nil ==> forall j in 0..len(u.workers) :: u.workers[j].started
+//@ func (*unaryNegation).Next
+//@   requires ctx != nil && u != nil && u.next != nil && (forall j in 0..len(u.workers) :: u.workers[j] != nil)
+//@   requires series-loaded-once: u.once != 0 ==> forall j in 0..len(u.workers) :: u.workers[j].started
+//@   panics may
+//@   ensures[C18] error-means-no-batch: result1 != nil ==> isnil(result0)
+//@   ensures[C06,C07,C18] one-output-vector-per-input-vector: result1 == nil && !isnil(result0) ==> sameslice(result0, callres("model.VectorOperator.Next", 1, 0))
+//@   at line "for i, vector := range in {" assume sibling-lockstep-batch-fits: len(in) <= len(u.workers)
+//@   at worker.(*Worker).Send assert[C06] every-vector-is-negated-by-its-steps-worker: $w == u.workers[i] && sameslice($in.Samples, in[i].Samples)
+//@   loop 0 invariant u != nil && len(in) <= len(u.workers) && (forall j in 0..len(u.workers) :: u.workers[j] != nil && u.workers[j].started)
+//@   loop 1 invariant u != nil && len(in) <= len(u.workers) && (forall j in 0..len(u.workers) :: u.workers[j] != nil && u.workers[j].started)
